@@ -1,6 +1,5 @@
 import LocustModel.Proto
 import LocustModel.Codec.Ingest
-import LocustModel.Lemmas.C01Ints
 /-
   Driver for C01.  Input line:
     c01 <kind> <i2f> <showf> <ncols> <item> <item> ...
@@ -71,13 +70,20 @@ def showCell : Cell → String
   | .float b => "f" ++ showHex16 b
   | .str s => showHexBytes s
 
+/-- rows view of per-column cell lists (columns shorter than the first are padded with NULL); linear. -/
 def showRows (cols : List (List Cell)) : String :=
   match cols with
   | [] => "[]"
   | c :: _ =>
     if c.isEmpty then "[]"
-    else ";".intercalate ((List.range c.length).map fun i =>
-      ",".intercalate (cols.map fun col => showCell (col.getD i .null)))
+    else
+      let rec go (fuel : Nat) (cols : List (List Cell)) (acc : Array String) : Array String :=
+        match fuel with
+        | 0 => acc
+        | fuel + 1 =>
+          let row := ",".intercalate (cols.map fun col => showCell (col.headD .null))
+          go fuel (cols.map List.tail) (acc.push row)
+      ";".intercalate (go c.length cols #[]).toList
 
 def colName (i : Nat) : String := "c" ++ toString i
 
@@ -96,13 +102,29 @@ def showOp : CodecOp → String
   | .unpack => "StrUnpack"
   | .unhex u n => "StrHexUnpack(" ++ toString u ++ "," ++ toString n ++ ")"
 
-def showSec : Section → String
+/-- FNV-1a-style checksum over the section contents as u64 values (same function in the harness). -/
+def fnv (vals : List Nat) : Nat :=
+  vals.foldl (fun h v => ((h ^^^ v) * 0x100000001b3) % 18446744073709551616) 0xcbf29ce484222325
+
+def secName : Section → String
   | .nat w _ => w.name
   | .i64 _ => "i64"
   | .f64 _ => "f64"
   | .null _ => "null"
   | .bitvec _ => "bitvec"
   | .comp _ _ => "comp"
+
+def secVals : Section → Nat × List Nat
+  | .nat _ d => (d.length, d)
+  | .i64 d => (d.length, d.map fun x => (x % 18446744073709551616).toNat)
+  | .f64 d => (d.length, d)
+  | .null n => (n, [])
+  | .bitvec d => (d.length, d)
+  | .comp p _ => (p.length, p)
+
+def showSec (s : Section) : String :=
+  let (n, vals) := secVals s
+  secName s ++ "#" ++ toString n ++ "." ++ showHex16 (fnv vals)
 
 def showShape (c : Column) : String :=
   "n" ++ toString c.len ++ ":" ++ (if c.ops.isEmpty then "id" else "+".intercalate (c.ops.map showOp)) ++ ":" ++
@@ -111,15 +133,9 @@ def showShape (c : Column) : String :=
 /-- no compression in the executable model (the choice is free and `dec ∘ enc = id` is assumed). -/
 def idComp : Compressor := { enc := id, dec := id }
 
-/-- open known findings: decidable classifiers on the column buffer about to be finalized. -/
-def classify (cv : Conv) (cb : ColBuf) : Option String :=
-  match cb.buffer with
-  | .int b =>
-    if b.deltaEncode ∧ ¬ DeltaOk b.data then some "F-C01-delta-overflow"
-    else if ¬ b.deltaEncode ∧ IntervalBad b.data then some "F-C01-interval-overflow"
-    else none
-  | .mixed d => if RawVal.null ∈ d then some "F-C01-mixed-nulls" else none
-  | _ => let _ := cv; none
+/-- open known findings: none (F-C01-delta-overflow, F-C01-interval-overflow and F-C01-mixed-nulls are fixed in
+    /repo and the model mirrors the fixed code; a fixed entry suppresses nothing). -/
+def classify (_cv : Conv) (_cb : ColBuf) : Option String := none
 
 structure Out where
   cols : List (List Cell)       -- per column, accumulated over partitions
@@ -157,20 +173,9 @@ def runItems (cv : Conv) (ncols : Nat) : List Item → Buffer → Out → Out
     | .ok b' => runItems cv ncols rest b' o
     | .error e => { o with fault := some e }
 
-/-- specification: per column, the cells supplied, batch by batch (absent ⇒ NULL for every row of the batch). -/
-def repCells (rows : Nat) : Option Rep → List Op
-  | none | some .empty => [.nulls rows]
-  | some (.dense d) => [.floats (d.take rows), .nulls (rows - d.length)]
-  | some (.i64 d) => [.ints (d.take rows), .nulls (rows - d.length)]
-  | some (.str d) => [.strs d]
-  | some (.mixed d) => d.map fun
-      | .int i => .ints [i] | .float f => .floats [f] | .str s => .strs [s] | .null => .nulls 1
-  | some (.sparse d) => sparseOps (fun f => Op.floats [f]) rows 0 d
-  | some (.sparseI64 d) => sparseOps (fun i => Op.ints [i]) rows 0 d
-where
-  sparseOps {α : Type} (mk : α → Op) (rows : Nat) (next : Nat) : List (Nat × α) → List Op
-    | [] => [.nulls (rows - next)]
-    | (i, v) :: rest => .nulls (i - next) :: mk v :: sparseOps mk rows (i + 1) rest
+/-- specification: per column, the cells supplied, batch by batch (absent ⇒ NULL for every row of the batch):
+    `LM.Codec.repOps` (Codec/Ingest.lean; `C01_input_column` relates it to what `push_typed_cols` issues). -/
+def repCells (rows : Nat) (r : Option Rep) : List Op := repOps rows r
 
 /-- per open-buffer segment (a flush turns the buffer into a partition; type degradation is a property of one
     column buffer, later partitions are typed on their own). -/
@@ -277,6 +282,7 @@ def mkConv (i2f : List (Int × Nat)) (showf : List (Nat × Bytes)) : Conv := {
 
 def step (line : String) : String :=
   match splitTokens line with
+  | ["c01", "x"] => "?\tSKIP"      -- coverage-only case (implementation output recorded, nothing predicted)
   | "c01" :: "csv" :: i2fS :: showfS :: ncolsS :: psizeS :: colsS =>
     match parseElems (parsePair String.toInt? hexNat?) (if i2fS = "[]" then "" else i2fS),
           parseElems (parsePair hexNat? parseHexBytes?) (if showfS = "[]" then "" else showfS),
@@ -293,6 +299,10 @@ def step (line : String) : String :=
         i2f := fun i => ((i2f.find? (·.1 = i)).map (·.2)).getD 0
         showInt := fun i => (toString i).toUTF8.toList
         showFloat := fun f => ((showf.find? (·.1 = f)).map (·.2)).getD [] }
+      if kind = "s" then
+        -- specification only (cases too large for the quadratic executable model of the dictionary builder)
+        "?\t" ++ "rows:" ++ showRows ((List.range ncols).map fun c => specCells cv items c)
+      else
       let o := runItems cv ncols items {} { cols := List.replicate ncols [] }
       let known := match o.known with | some k => "\t" ++ k | none => ""
       if kind = "u" then
